@@ -24,6 +24,8 @@ NHND == 3               \* join-handle slots per task
 
 CONSTANT Sched   \* "any": any ready task may be polled next (the property-level model)
                  \* "fifo": the queue discipline of the code (a refinement of "any"; linear-time validation)
+CONSTANT KFS     \* set of named known deviations the model admits (DESIGN.md 2.6); {} = strict
+KnownDev(d) == d \in KFS
 
 VARIABLES
   cmds,     \* cmd key <<inst,id>> -> [host, aborted, alive, out, exec]
@@ -58,6 +60,15 @@ ZeroRegs == [i \in 1..NREG |-> 0]
 NoStreams == [i \in 1..NSTR |-> [rid |-> NONE, tag |-> 0, val |-> 0, l |-> FALSE]]
 NoHandles == [i \in 1..NHND |-> NONE]
 
+\* flatten_unordered: the outer stream has been polled (init) / has ended (odone); inner: the streams
+\* opened so far, [rid, st, rrid] with st "new" (not polled yet) | "wait" (awaiting its stream) | "req"
+\* (awaiting the then_request rrid) | "done"; fq: FuturesUnordered's ready-to-run queue (indices into
+\* inner); phase/polled/len0: progress of the poll in flight
+\* woken: the combinator's WOKEN state -- it handed out an item (or woke its task) and expects to be
+\* polled again; until then its wakers only take notes, they do not wake the task
+NoFlat == [init |-> FALSE, odone |-> FALSE, inner |-> <<>>, fq |-> <<>>, phase |-> "idle", polled |-> 0, len0 |-> 0,
+           woken |-> FALSE]
+
 \* legacy: the task was spawned through the capability API (CapabilityContext): its shell futures
 \* are the shared-state ones of capability/shell_request.rs and shell_stream.rs
 NewTaskL(cmd, code, regs, handles, noEvict, legacy) ==
@@ -65,7 +76,9 @@ NewTaskL(cmd, code, regs, handles, noEvict, legacy) ==
    streams |-> NoStreams, handles |-> handles, hosting |-> NONE, aborted |-> FALSE,
    ls |-> <<>>, yielded |-> FALSE, noEvict |-> noEvict, inPoll |-> FALSE, why |-> "", legacy |-> legacy,
    script |-> FALSE,     \* script: the future is an interpreted script of the harness (it carries a drop token)
-   root |-> FALSE]       \* root: the task Command::new created -- it shares the command's abort flag
+   root |-> FALSE,       \* root: the task Command::new created -- it shares the command's abort flag
+   flat |-> NoFlat,      \* state of the task's flatten_unordered (StreamBuilder::then_stream), see ExecFlat
+   flatGen |-> "none"]   \* which poll's waker the flatten_unordered holds: "none" | "stale" | "latest"
 
 NewTask(cmd, code, regs, handles, noEvict) == NewTaskL(cmd, code, regs, handles, noEvict, FALSE)
 
@@ -86,7 +99,9 @@ AbortStub == [host |-> NONE, aborted |-> TRUE, alive |-> FALSE, out |-> {}, exec
 NewReqL(kind, owner, tag, val, legacy) ==
   [kind |-> kind, kind0 |-> kind, owner |-> owner, tag |-> tag, val |-> val, legacy |-> legacy,
    held |-> FALSE, senderAlive |-> TRUE, recvAlive |-> (kind # "never"),
-   reg |-> IF kind = "never" THEN "none" ELSE "latest", chan |-> <<>>, nres |-> 0]
+   reg |-> IF kind = "never" THEN "none" ELSE "latest", chan |-> <<>>, nres |-> 0,
+   fl |-> -1]     \* >= 0: polled by the owner's flatten_unordered (0 the outer stream, i the i-th inner one):
+                  \* its waker (reg = "flat") is a waker of the combinator, not of the task
 
 NewReq(kind, owner, tag, val) == NewReqL(kind, owner, tag, val, FALSE)
 
@@ -111,15 +126,48 @@ StageCode(stages, i) ==
                 [op |-> "req", tag |-> s.tag, src |-> [r |-> 1], dst |-> 1] >>)
        \o StageCode(stages, i + 1)
 
+\* position of the (single) then_stream stage, 0 if there is none
+TSPos(stages) == IF \E i \in DOMAIN stages : stages[i].k = "then_stream"
+                 THEN CHOOSE i \in DOMAIN stages : stages[i].k = "then_stream" ELSE 0
+SubStages(stages, a, b) == [i \in 1..(b - a + 1) |-> stages[a + i - 1]]
+
 ChainCode(c) ==
-  IF c.root.k = "req"
+  LET k == TSPos(c.stages) n == Len(c.stages) IN
+  IF c.root.k = "req" /\ k = 0
   THEN << [op |-> "req", tag |-> c.root.tag, src |-> [c |-> c.root.val], dst |-> 1] >>
        \o StageCode(c.stages, 1)
        \o << [op |-> "emit", tag |-> c.sink.tag, src |-> [r |-> 1]] >>
-  ELSE \* stream root: one item at a time through the stages, then the sink; ends with the stream
+  ELSE IF c.root.k = "req"
+  THEN \* RequestBuilder::then_stream: flat_map over the one output -- sequential: the stream is opened
+       \* with the output and read to its end, each item going through the remaining stages
+       LET ts   == c.stages[k]
+           pre  == << [op |-> "req", tag |-> c.root.tag, src |-> [c |-> c.root.val], dst |-> 1] >>
+                   \o StageCode(SubStages(c.stages, 1, k - 1), 1)
+                   \o << [op |-> "map", f |-> ts.f, reg |-> 1],
+                          [op |-> "open", tag |-> ts.tag, src |-> [r |-> 1], s |-> 1] >>
+           body == (IF Fld(ts, "itag", 0) = 0 THEN <<>>
+                    ELSE << [op |-> "req", tag |-> ts.itag, src |-> [r |-> 1], dst |-> 1] >>)
+                   \o StageCode(SubStages(c.stages, k + 1, n), 1)
+           lp   == Len(pre) + 1 IN
+       pre \o << [op |-> "next", s |-> 1, dst |-> 1, else |-> lp + Len(body) + 3] >>
+           \o body
+           \o << [op |-> "emit", tag |-> c.sink.tag, src |-> [r |-> 1]],
+                 [op |-> "goto", pc |-> lp] >>
+  ELSE IF k = 0
+  THEN \* stream root: one item at a time through the stages, then the sink; ends with the stream
        LET body == StageCode(c.stages, 1) IN
        << [op |-> "open", tag |-> c.root.tag, src |-> [c |-> c.root.val], s |-> 1],
           [op |-> "next", s |-> 1, dst |-> 1, else |-> Len(body) + 5] >>
+       \o body
+       \o << [op |-> "emit", tag |-> c.sink.tag, src |-> [r |-> 1]],
+             [op |-> "goto", pc |-> 2] >>
+  ELSE \* StreamBuilder::then_stream: map + flatten_unordered -- every item of the (mapped) root stream
+       \* opens a stream of its own; all of them are read concurrently inside the one task
+       LET ts   == c.stages[k]
+           body == StageCode(SubStages(c.stages, k + 1, n), 1) IN
+       << [op |-> "open", tag |-> c.root.tag, src |-> [c |-> c.root.val], s |-> 1],
+          [op |-> "flat", s |-> 1, pre |-> [i \in 1..(k - 1) |-> c.stages[i].f], f |-> ts.f, tag |-> ts.tag,
+           itag |-> Fld(ts, "itag", 0), dst |-> 1, else |-> Len(body) + 5] >>
        \o body
        \o << [op |-> "emit", tag |-> c.sink.tag, src |-> [r |-> 1]],
              [op |-> "goto", pc |-> 2] >>
@@ -256,7 +304,9 @@ Remove(S, K0, notify, why) ==
                IF S.cmds[c].host \in K THEN [S.cmds[c] EXCEPT !.alive = FALSE, !.out = {}] ELSE S.cmds[c]]
       R1 == [r \in DOMAIN S.reqs |->
                IF S.reqs[r].owner \in K
-               THEN [S.reqs[r] EXCEPT !.recvAlive = FALSE, !.reg = IF S.reqs[r].legacy THEN "none" ELSE @]
+               \* (a capability-API future owns its waker; a flatten_unordered's wakers die with it)
+               THEN [S.reqs[r] EXCEPT !.recvAlive = FALSE,
+                                      !.reg = IF S.reqs[r].legacy \/ S.reqs[r].fl >= 0 THEN "none" ELSE @]
                ELSE S.reqs[r]]
       J1 == SelectSeq(S.joinreg, LAMBDA j : j.k \notin K /\ j.w \notin K)
       S1 == [S EXCEPT !.tasks = T1, !.cmds = C1, !.reqs = R1, !.joinreg = J1,
@@ -414,7 +464,108 @@ ExecWait(S, t, I) ==
   IN [S |-> IF topItems = {} THEN S3 ELSE AddOut(S3, TopCmd(S3), topItems),
       oc |-> IF complete THEN "cont" ELSE "pending"]
 
-ExecInstr(S, t) ==
+---------------------------------------------------------------------------
+(* flatten_unordered (StreamBuilder::then_stream = map + flatten_unordered(None)), one poll of it   *)
+(* in steps: first the outer stream is drained (every item opens an inner stream, stamped now and  *)
+(* sent when it is first polled), then the inner futures on the ready-to-run queue are polled one  *)
+(* by one -- in queue order ("fifo": FuturesUnordered as it is) or in any order ("any": what the    *)
+(* property leaves open) -- until one yields an item or the queue is empty.  The combinator polls   *)
+(* its streams with wakers of its own, which forward to the waker it was last polled with.         *)
+RECURSIVE ApplyAll(_, _)
+ApplyAll(fs, x) == IF fs = <<>> THEN x ELSE ApplyAll(Tail(fs), ApplyF(Head(fs), x))
+
+RECURSIVE DrainOuter(_, _, _, _)
+DrainOuter(S, t, I, r) ==
+  IF S.reqs[r].chan = <<>> THEN S
+  ELSE LET T == S.tasks[t]
+           v == ApplyF(I.f, ApplyAll(I.pre, Head(S.reqs[r].chan)))
+           i == Len(T.flat.inner) + 1 IN
+       DrainOuter([S EXCEPT !.reqs[r].chan = Tail(@),
+                            !.tasks[t].flat.inner = Append(@, [rid |-> <<t[1], t[2], T.seq>>, st |-> "new",
+                                                                rrid |-> NONE, val |-> v]),
+                            !.tasks[t].flat.fq = Append(@, i),
+                            !.tasks[t].seq = @ + 1], t, I, r)
+
+FlatLive(F) == Cardinality({i \in DOMAIN F.inner : F.inner[i].st # "done"})
+
+\* positions of the ready-to-run queue the next inner poll may take
+FlatChoices(S, t) ==
+  LET T == S.tasks[t] IN
+  IF T.pc <= Len(T.code) /\ T.code[T.pc].op = "flat" /\ T.flat.phase = "inner" /\ T.flat.fq # <<>>
+  THEN (IF Fifo THEN {1} ELSE DOMAIN T.flat.fq)
+  ELSE {1}
+
+ExecFlat(S, t, I, ch) ==
+  LET T == S.tasks[t]
+      F == T.flat
+      FlatReq(kind, tag, val, i) == [NewReq(kind, t, tag, val) EXCEPT !.fl = i, !.reg = "flat"]
+      \* the flattened stream is over: the `else` branch
+      ends(S1) == [S |-> [S1 EXCEPT !.tasks[t].pc = I.else, !.tasks[t].flat.phase = "idle"], oc |-> "cont"]
+      \* Pending with cx.waker().wake_by_ref() (FlattenUnordered's force_wake)
+      selfwake(S1) == [S |-> Enq1([S1 EXCEPT !.tasks[t].flat.phase = "idle", !.tasks[t].flat.woken = TRUE], t),
+                       oc |-> "pending"]
+  IN
+  IF F.phase = "idle"
+  THEN LET r  == T.streams[I.s].rid
+           S0 == [S EXCEPT !.tasks[t].flatGen = "latest", !.tasks[t].flat.woken = FALSE]
+           S1 == IF r \in DOMAIN S.reqs THEN S0
+                 ELSE AddOut([S0 EXCEPT !.reqs = @ @@ (r :> FlatReq("many", T.streams[I.s].tag, T.streams[I.s].val, 0)),
+                                        !.tasks[t].en = @ + 1],
+                             T.cmd, {EffItem(r, T.streams[I.s].tag, T.streams[I.s].val, T.en)})
+           S2 == DrainOuter(S1, t, I, r)
+           od == ~S2.reqs[r].senderAlive
+           live == FlatLive(S2.tasks[t].flat)
+           S3 == [S2 EXCEPT !.reqs[r].reg = IF od THEN @ ELSE "flat",
+                            !.reqs[r].recvAlive = IF od THEN FALSE ELSE @,
+                            !.tasks[t].flat.odone = od]
+       IN IF od /\ live = 0 THEN ends(S3)
+          ELSE [S |-> [S3 EXCEPT !.tasks[t].flat.phase = "inner", !.tasks[t].flat.polled = 0,
+                                 !.tasks[t].flat.len0 = live], oc |-> "cont"]
+  ELSE IF F.fq = <<>>
+  THEN [S |-> [S EXCEPT !.tasks[t].flat.phase = "idle"], oc |-> "pending"]
+  ELSE
+  LET i   == F.fq[ch]
+      fq1 == SubSeq(F.fq, 1, ch - 1) \o SubSeq(F.fq, ch + 1, Len(F.fq))
+      N   == F.inner[i]
+      Sq  == [S EXCEPT !.tasks[t].flat.fq = fq1]
+      \* the future polled returned Pending: FuturesUnordered gives up after a full round
+      pend(S1) == IF F.polled + 1 = F.len0 THEN selfwake(S1)
+                  ELSE [S |-> [S1 EXCEPT !.tasks[t].flat.polled = @ + 1], oc |-> "cont"]
+      item(S1, v) == [S |-> [S1 EXCEPT !.tasks[t].flat.fq = Append(@, i), !.tasks[t].flat.phase = "idle",
+                                       !.tasks[t].flat.woken = TRUE,
+                                       !.tasks[t].regs[I.dst] = v, !.tasks[t].pc = @ + 1], oc |-> "cont"]
+  IN
+  CASE N.st = "new" ->
+         pend(AddOut([Sq EXCEPT !.reqs = @ @@ (N.rid :> FlatReq("many", I.tag, N.val, i)),
+                                !.tasks[t].flat.inner[i].st = "wait", !.tasks[t].en = @ + 1],
+                     T.cmd, {EffItem(N.rid, I.tag, N.val, T.en)}))
+    [] N.st = "wait" ->
+         LET q == S.reqs[N.rid] IN
+         IF q.chan # <<>>
+         THEN LET y  == Head(q.chan)
+                  S1 == [Sq EXCEPT !.reqs[N.rid].chan = Tail(@)] IN
+              IF I.itag = 0 THEN item(S1, y)
+              ELSE LET rr == <<t[1], t[2], T.seq>> IN
+                   pend(AddOut([S1 EXCEPT !.reqs = @ @@ (rr :> FlatReq("once", I.itag, y, i)),
+                                          !.tasks[t].flat.inner[i].st = "req",
+                                          !.tasks[t].flat.inner[i].rrid = rr,
+                                          !.tasks[t].seq = @ + 1, !.tasks[t].en = @ + 1],
+                               T.cmd, {EffItem(rr, I.itag, y, T.en)}))
+         ELSE IF ~q.senderAlive
+         THEN \* this inner stream is over
+              LET S1 == [Sq EXCEPT !.tasks[t].flat.inner[i].st = "done", !.reqs[N.rid].recvAlive = FALSE] IN
+              IF F.odone /\ FlatLive(S1.tasks[t].flat) = 0 THEN ends(S1) ELSE selfwake(S1)
+         ELSE pend([Sq EXCEPT !.reqs[N.rid].reg = "flat"])
+    [] N.st = "req" ->
+         LET q == S.reqs[N.rrid] IN
+         IF q.chan # <<>>
+         THEN item([Sq EXCEPT !.reqs[N.rrid].chan = <<>>, !.reqs[N.rrid].recvAlive = FALSE,
+                              !.tasks[t].flat.inner[i].st = "wait"], Head(q.chan))
+         ELSE IF q.senderAlive THEN pend([Sq EXCEPT !.reqs[N.rrid].reg = "flat"])
+         ELSE pend(Sq)        \* the request was dropped: this inner stream is stuck for good
+    [] OTHER -> pend(Sq)
+
+ExecInstrC(S, t, ch) ==
   LET T == S.tasks[t] IN
   IF T.pc > Len(T.code) THEN [S |-> S, oc |-> "finished"]
   ELSE
@@ -464,10 +615,14 @@ ExecInstr(S, t) ==
                           !.rq = IF Fifo THEN (ck :> n.q) @@ [@ EXCEPT ![T.cmd] = <<t>> \o @] ELSE @,
                           !.sq = IF Fifo THEN (ck :> <<>>) @@ @ ELSE @],
           oc |-> "host"]
+    [] I.op = "flat" -> ExecFlat(S, t, I, ch)
     [] IsWait(I) -> ExecWait(S, t, I)
+
+ExecInstr(S, t) == ExecInstrC(S, t, 1)
 
 \* does anything hold the waker of t's latest poll?  (Arc::strong_count(&arc_waker) >= 2)
 HoldsLatest(S, t) ==
+  \/ S.tasks[t].flatGen = "latest"      \* flatten_unordered keeps the waker it was last polled with
   \/ \E r \in DOMAIN S.reqs : S.reqs[r].owner = t /\ S.reqs[r].reg = "latest"
   \/ \E i \in DOMAIN S.joinreg : S.joinreg[i].w = t /\ S.joinreg[i].g = "latest"
 
@@ -477,18 +632,38 @@ HoldsLatest(S, t) ==
 LeafDead(S, L, ls, i) ==
   /\ L[i].k = "req" /\ ls[i].rid \in DOMAIN S.reqs
   /\ ~S.reqs[ls[i].rid].senderAlive /\ S.reqs[ls[i].rid].chan = <<>>
-Stuck(S, t) ==
+WaitStuck(S, t) ==
   LET T == S.tasks[t] IN
   /\ T.pc <= Len(T.code) /\ IsWait(T.code[T.pc]) /\ T.ls # <<>>
   /\ LET I == T.code[T.pc] L == LeavesOf(I) IN
      IF ModeOf(I) = "all" THEN \E i \in DOMAIN L : ~T.ls[i].done /\ LeafDead(S, L, T.ls, i)
      ELSE \A i \in DOMAIN L : LeafDead(S, L, T.ls, i)
 
-\* the end of a poll that returned Pending: command/executor.rs run_task, after the poll
-EndPending(S, t) ==
+\* A task suspended in flatten_unordered that nothing can wake again: the outer stream is over and
+\* every inner stream left waits on a then_request whose request the shell dropped
+FlatStuck(S, t) ==
+  LET T == S.tasks[t] IN
+  /\ T.pc <= Len(T.code) /\ T.code[T.pc].op = "flat"
+  /\ T.flat.odone /\ T.flat.fq = <<>>
+  /\ \E i \in DOMAIN T.flat.inner : T.flat.inner[i].st # "done"
+  /\ \A i \in DOMAIN T.flat.inner :
+        \/ T.flat.inner[i].st = "done"
+        \/ /\ T.flat.inner[i].st = "req"
+           /\ ~S.reqs[T.flat.inner[i].rrid].senderAlive /\ S.reqs[T.flat.inner[i].rrid].chan = <<>>
+
+Stuck(S, t) == WaitStuck(S, t) \/ FlatStuck(S, t)
+
+\* the end of a poll that returned Pending: command/executor.rs run_task, after the poll.
+\* keep: known deviation D12 -- a task stuck in flatten_unordered is never evicted, because the
+\* combinator itself keeps a clone of the waker it was polled with; what the property asks for
+\* (keep = FALSE) is that such a task goes like any other task nothing can wake
+EndPendingK(S, t, keep) ==
   IF t \in S.ready THEN S                                   \* woke itself: stays ready, never evicted
+  ELSE IF FlatStuck(S, t) THEN (IF keep THEN S ELSE Remove(S, {t}, TRUE, "evicted"))
   ELSE IF S.tasks[t].noEvict \/ HoldsLatest(S, t) THEN S    \* suspended
   ELSE Remove(S, {t}, TRUE, "evicted")                      \* evicted (TaskState::Cancelled)
+EndPending(S, t) == EndPendingK(S, t, FALSE)
+KeepChoices(S, t) == IF t \notin S.ready /\ FlatStuck(S, t) /\ KnownDev("D12") THEN {TRUE, FALSE} ELSE {FALSE}
 
 ---------------------------------------------------------------------------
 (* The state as a record, so the semantic operators above can be pure *)
@@ -517,7 +692,8 @@ Start(c, inst) ==
 
 \* poll generation: everything t registered in earlier polls now holds an old waker
 Stale(S, t) ==
-  [S EXCEPT !.reqs = [r \in DOMAIN @ |-> IF @[r].owner = t /\ @[r].reg = "latest"
+  [S EXCEPT !.tasks[t].flatGen = IF @ = "latest" THEN "stale" ELSE @,
+            !.reqs = [r \in DOMAIN @ |-> IF @[r].owner = t /\ @[r].reg = "latest"
                                          THEN [@[r] EXCEPT !.reg = "stale"] ELSE @[r]],
             !.joinreg = [i \in DOMAIN @ |-> IF @[i].w = t THEN [@[i] EXCEPT !.g = "stale"] ELSE @[i]]]
 
@@ -623,10 +799,11 @@ ReapTask(t) ==
 
 Step ==
   /\ run # NONE
-  /\ LET r == ExecInstr(St, run) IN
+  /\ \E ch \in FlatChoices(St, run) :
+     LET r == ExecInstrC(St, run, ch) IN
      CASE r.oc = "cont"     -> Put(r.S) /\ UNCHANGED run
        [] r.oc = "host"     -> Put(r.S) /\ run' = NONE
-       [] r.oc = "pending"  -> Put(EndPending(r.S, run)) /\ run' = NONE
+       [] r.oc = "pending"  -> \E keep \in KeepChoices(r.S, run) : Put(EndPendingK(r.S, run, keep)) /\ run' = NONE
        [] r.oc = "finished" -> Put(Remove(r.S, {run}, TRUE, "finished")) /\ run' = NONE
 
 ArmCmd(c) ==
@@ -705,12 +882,19 @@ GoneLevels(S, t) ==
   IF S.cmds[c].wreg /\ h # ROOT THEN me \cup GoneLevels(S, h) ELSE me
 
 AliasCands(S, r) ==
-  IF S.reqs[r].reg = "none" THEN {}
+  IF S.reqs[r].reg = "none" \/ S.reqs[r].fl >= 0 THEN {}
   ELSE {u \in Live(S) : S.tasks[u].cmd \in GoneLevels(S, S.reqs[r].owner)}
 
 WakeOwner(S, r, al) ==
   IF S.reqs[r].reg = "none" THEN S
-  ELSE LET S1 == Wake([S EXCEPT !.reqs[r].reg = "none"], <<S.reqs[r].owner>>) IN
+  ELSE LET i  == S.reqs[r].fl
+           t  == S.reqs[r].owner
+           \* a waker of an inner stream of flatten_unordered puts that stream's future on the
+           \* ready-to-run queue (unless it is there already) before it wakes the task
+           S0 == IF i > 0 /\ ~(\E j \in DOMAIN S.tasks[t].flat.fq : S.tasks[t].flat.fq[j] = i)
+                 THEN [S EXCEPT !.tasks[t].flat.fq = Append(@, i)] ELSE S
+           S1 == IF i >= 0 /\ S.tasks[t].flat.woken THEN [S0 EXCEPT !.reqs[r].reg = "none"]
+                 ELSE Wake([S0 EXCEPT !.reqs[r].reg = "none"], <<t>>) IN
        IF al = NONE THEN S1 ELSE Enq1(S1, al)
 
 Resolve(r, v, al) ==
